@@ -173,8 +173,8 @@ impl Check for C17 {
     }
     fn count(&self, tier: Tier) -> u64 {
         match tier {
-            Tier::Quick => 12_000,
-            Tier::Thorough => 500_000,
+            Tier::Quick => 60_000,
+            Tier::Thorough => 2_000_000,
         }
     }
     fn generate(&self, rng: &mut Rng, _index: u64, _tier: Tier) -> C17Sc {
